@@ -57,6 +57,12 @@ INSIDE_EXTRA = [
     ("fstring", "a = 4\nmon.write(f\"a={a}\")\nmon.write(\"x\" + str(a))\n"),
     ("list-basic", "xs = [3, 1, 2]\nxs.append(5)\nmon.write(len(xs))\nmon.write(xs[0] + xs[-1])\n"),
     ("nested-break", "n = 0\nwhile n < 5:\n    n += 1\n    for i in range(4):\n        if i == 2:\n            break\n        mon.write(i + n * 10)\n"),
+    ("tuple-new-after-reassign", "base = 5\nbase = 7\nlo, hi = base - 1, base + 1\nmon.write(lo)\nmon.write(hi)\nbase = 1\nmon.write(lo + base)\n"),
+    ("tuple-new-in-loop", "k = 0\nwhile True:\n    k += 1\n    p1, p2 = k * 2, k + 10\n    mon.write(p1)\n    mon.write(p2)\n"),
+    ("while-promoted-float", "n = 0\nwhile n < 3:\n    half = n * 0.5\n    mon.write(half)\n    n += 1\nmon.write(half)\n"),
+    ("while-promoted-in-main-loop", "n = 0\nwhile True:\n    n = 0\n    while n < 2:\n        part = n * 1.5\n        n += 1\n    mon.write(part)\n"),
+    ("for-promoted-float", "for i in range(3):\n    acc = i * 0.25\nmon.write(acc)\n"),
+    ("if-promoted-str", "c = 3\nif c > 2:\n    label = \"hi\"\nelse:\n    label = \"lo\"\nmon.write(label)\n"),
     ("cond-expr", "a = 3\nb = a if a > 2 else 0\nmon.write(b)\n"),
     ("helper-mixed-returns", "def scale(v):\n    if v > 10:\n        return v / 2.0\n    return v\nmon.write(scale(25))\nmon.write(scale(4))\nx = scale(31)\nmon.write(x)\n"),
     ("helper-float", "def half(v):\n    return v * 0.5\nmon.write(half(5))\nmon.write(half(4.0))\n"),
